@@ -407,6 +407,57 @@ static void faithful(const unsigned maxRR, const unsigned maxLabels, const unsig
     free(dgram);
     WITNESS_POINT();
 }
+// (b2) compression pointers whose target lies beyond the first 127 / 255 octets of the message (both octets of the 14-bit
+// offset matter, and the low octet is >= 0x80): a reference-encoded reply "question a; RR1 = <ptr to question> TXT with `pad`
+// filler octets; RR2 = spelled-out owner <x> A; RR3 = <ptr to RR2's owner> PTR whose target is <y> + <ptr to RR2's owner>",
+// where pad places RR2's owner at offsets 127..132 and 255..260
+extern "C" void c37_far_pointer(void)
+{
+    vf_quiet();
+    static unsigned char b[400];
+    unsigned n = 0;
+    const unsigned id = vf_nondet_u16("id");
+    put16(b, n, id); put16(b, n, 0x8180); put16(b, n, 1); put16(b, n, 3); put16(b, n, 0); put16(b, n, 0);
+    b[n++] = 1; b[n++] = 'a'; b[n++] = 0; put16(b, n, 1); put16(b, n, 1);
+    const unsigned sel = (unsigned)vf_concretize(vf_range(0, 11, "pad"));
+    const unsigned pad = sel < 6 ? 96 + sel : 224 + (sel - 6);
+    // RR1: TXT-typed filler (a type Squid copies verbatim)
+    b[n++] = 0xC0; b[n++] = 12; put16(b, n, 16); put16(b, n, 1); put32(b, n, 60); put16(b, n, pad);
+    for (unsigned i = 0; i < pad; ++i) b[n++] = (unsigned char)('A' + i % 26);
+    // RR2: owner <x>, A
+    const unsigned at = n;
+    RefName x; memset(&x, 0, sizeof(x)); x.nlabels = 1; x.len[0] = 1; x.lab[0][0] = vf_nondet_u8("labelbyte");
+    n += encodeName(b + n, x, 1, 0);
+    unsigned char addr[4];
+    put16(b, n, RFC1035_TYPE_A); put16(b, n, 1); put32(b, n, 61); put16(b, n, 4);
+    for (unsigned i = 0; i < 4; ++i) b[n++] = addr[i] = vf_nondet_u8("addr");
+    // RR3: owner = pointer to RR2's owner; PTR target = <y> + pointer to RR2's owner
+    n += encodeName(b + n, x, 0, at);
+    RefName y; memset(&y, 0, sizeof(y)); y.nlabels = 2; y.len[0] = 1; y.lab[0][0] = vf_nondet_u8("labelbyte"); y.len[1] = 1; y.lab[1][0] = x.lab[0][0];
+    put16(b, n, RFC1035_TYPE_PTR); put16(b, n, 1); put32(b, n, 62); put16(b, n, 4);
+    n += encodeName(b + n, y, 1, at);
+
+    char *dgram = (char *)malloc(n);
+    memcpy(dgram, b, n);
+    rfc1035_message *msg = nullptr;
+    const int ret = rfc1035MessageUnpack(dgram, n, &msg);
+    vf_observe("ret", (uint64_t)(int64_t)ret);
+    vf_assert(msg != nullptr, "a well-formed message is decoded");
+    vf_assert(ret == 3, "return value: -rcode, or the number of answer records");
+    vf_assert(msg->id == id && msg->ancount == 3, "id");
+    vf_assert(msg->answer[0].type == 16 && msg->answer[0].rdlength == pad, "record rdlength");
+    sameName(msg->answer[1].name, x, "record owner name");
+    bool same = msg->answer[1].rdlength == 4;
+    for (unsigned i = 0; same && i < 4; ++i) same = (unsigned char)msg->answer[1].rdata[i] == addr[i];
+    vf_assert(same, "record rdata octets");
+    sameName(msg->answer[2].name, x, "record owner name");
+    vf_assert(msg->answer[2].type == RFC1035_TYPE_PTR && msg->answer[2].ttl == 62, "record type, class and ttl");
+    sameName(msg->answer[2].rdata, y, "PTR target name");
+    vf_reach("records");
+    rfc1035MessageDestroy(&msg);
+    free(dgram);
+    WITNESS_POINT();
+}
 // KNOWN FINDING (known_findings.json, C37-root-pointer-trailing-dot): same encoder and same strict assertions, restricted to
 // messages in which an owner or PTR/CNAME target name is <label> + compression pointer to a root (empty) question name
 extern "C" void c37_known_root_pointer(void) { onlyRootPointer = true; faithful(1, 2, 2, 1, 0); }
